@@ -23,6 +23,11 @@ pub const NAMES: &[&str] = &[
     "a:b/c@0.2.0", "a:b/c@0.2.1", "a:b/c@0.3.0", "x:y/z@1.0.0", "x:y/z@1.2.0",       // 10..14
     "p", "q", "my-t", "u:s/types@1.0.0", "u:s/api@1.0.0", "r", "get", "baz",         // 15..22
     "n1", "n2", "n3", "t0", "t1", "a:b/c@0.2.5", "k", "u:s/types@1.1.0", "u:s/api@1.1.0", "put", "s", // 23..33
+    // 34..40: one interface on major track 1 (minor/patch order disagree: 1.2.0 > 1.1.5; 1.10.0 > 1.4.0 > 1.2.0 numerically, not
+    // textually), on major track 12 (its track key "v:w/i@1" is a textual prefix), a pre-release (no track) and build metadata
+    "v:w/i@1.1.5", "v:w/i@1.2.0", "v:w/i@1.10.0", "v:w/i@12.0.1", "v:w/i@1.4.0", "v:w/i@1.3.0-rc.1", "v:w/i@1.2.0+b5",
+    // 41..44: minor tracks 0.2 / 0.21 (textual prefix) / 0.3; 0.2.10 > 0.2.0 numerically
+    "p:q/r@0.2.0", "p:q/r@0.21.0", "p:q/r@0.2.10", "p:q/r@0.3.0",
 ];
 
 enum Src { Wat(&'static str), Wit(&'static str) }
@@ -93,6 +98,52 @@ const PKGS: &[PkgDesc] = &[
         interface types { record r { a: u32 } enum k { one, two } }
         interface api { use types.{r}; get: func() -> r; put: func(v: r); }
         world w { import api; import types; export run: func(); }"#) },
+    // 12..18: v:w/i on tracks 1 / 12 / none
+    PkgDesc { name: "test:v115", version: None, src: Src::Wat(r#"(component
+        (import "v:w/i@1.1.5" (instance (export "x" (func)) (export "y" (func))))
+        (alias export 0 "x" (func))
+        (export "run" (func 0)))"#) },
+    PkgDesc { name: "test:v120", version: None, src: Src::Wat(r#"(component
+        (import "v:w/i@1.2.0" (instance (export "x" (func))))
+        (alias export 0 "x" (func))
+        (export "run" (func 0)))"#) },
+    PkgDesc { name: "test:v1100", version: None, src: Src::Wat(r#"(component
+        (import "v:w/i@1.10.0" (instance (export "x" (func))))
+        (alias export 0 "x" (func))
+        (export "g" (func 0)))"#) },
+    PkgDesc { name: "test:v1201", version: None, src: Src::Wat(r#"(component
+        (import "v:w/i@12.0.1" (instance (export "x" (func))))
+        (alias export 0 "x" (func))
+        (export "f" (func 0)))"#) },
+    PkgDesc { name: "test:v140", version: Some("2.0.0"), src: Src::Wat(r#"(component
+        (import "v:w/i@1.4.0" (instance (export "x" (func)) (export "y" (func))))
+        (import "f" (func))
+        (export "run" (func 0)))"#) },
+    PkgDesc { name: "test:vpre", version: None, src: Src::Wat(r#"(component
+        (import "v:w/i@1.3.0-rc.1" (instance (export "x" (func))))
+        (alias export 0 "x" (func))
+        (export "h" (func 0)))"#) },
+    PkgDesc { name: "test:vbuild", version: None, src: Src::Wat(r#"(component
+        (import "v:w/i@1.2.0+b5" (instance (export "y" (func))))
+        (alias export 0 "y" (func))
+        (export "y" (func 0)))"#) },
+    // 19..22: p:q/r on tracks 0.2 / 0.21 / 0.3
+    PkgDesc { name: "test:z020", version: None, src: Src::Wat(r#"(component
+        (import "p:q/r@0.2.0" (instance (export "p" (func))))
+        (alias export 0 "p" (func))
+        (export "run" (func 0)))"#) },
+    PkgDesc { name: "test:z0210", version: None, src: Src::Wat(r#"(component
+        (import "p:q/r@0.21.0" (instance (export "p" (func))))
+        (alias export 0 "p" (func))
+        (export "g" (func 0)))"#) },
+    PkgDesc { name: "test:z0210b", version: Some("0.2.10"), src: Src::Wat(r#"(component
+        (import "p:q/r@0.2.10" (instance (export "p" (func)) (export "q" (func))))
+        (alias export 0 "q" (func))
+        (export "q" (func 0)))"#) },
+    PkgDesc { name: "test:z030", version: None, src: Src::Wat(r#"(component
+        (import "p:q/r@0.3.0" (instance (export "p" (func))))
+        (import "f" (func))
+        (export "f" (func 0)))"#) },
 ];
 
 fn wit_component_bytes(wit: &str) -> Vec<u8> {
@@ -695,7 +746,8 @@ const NODE_NAMES: &[usize] = &[23, 24, 25, 6, 3];
 fn gen_composition(u: &Universe, r: &mut Rng, big: bool) -> (Vec<AOp>, Vec<Option<usize>>) {
     let mut g = Gen::new(u);
     // package families so that arguments can be wired between instances
-    let families: &[&[usize]] = &[&[0, 1, 2, 3, 8], &[4, 5, 6, 7, 8], &[9, 10, 11], &[0, 3, 4, 5, 8], &[1, 2, 6, 7, 8, 5], &[4, 5, 7, 9, 10, 11]];
+    let families: &[&[usize]] = &[&[0, 1, 2, 3, 8], &[4, 5, 6, 7, 8], &[9, 10, 11], &[0, 3, 4, 5, 8], &[1, 2, 6, 7, 8, 5], &[4, 5, 7, 9, 10, 11],
+        &[12, 13, 14, 15, 16, 17, 18], &[19, 20, 21, 22], &[12, 13, 16, 19, 20, 21], &[13, 12, 14, 4, 5, 8], &[15, 13, 20, 19, 22, 18]];
     let fam = *r.pick(families);
     let npk = 2 + r.below(fam.len() as u64 - 1) as usize;
     let mut chosen: Vec<usize> = Vec::new();
@@ -721,7 +773,7 @@ fn gen_composition(u: &Universe, r: &mut Rng, big: bool) -> (Vec<AOp>, Vec<Optio
                 if k == 6 || k == 7 { c.extend([10usize, 11, 28]); }
                 if k == 8 { c.push(14); }
                 *r.pick(&c)
-            } else if r.chance(1, 3) { *r.pick(&[17usize, 0, 1, 2, 29]) } else { *r.pick(&[0usize, 1, 2, 10, 11, 12, 13, 14, 17, 28]) };
+            } else if r.chance(1, 3) { *r.pick(&[17usize, 0, 1, 2, 29]) } else { *r.pick(&[0usize, 1, 2, 10, 11, 12, 13, 14, 17, 28, 34, 35, 36, 38, 41, 42, 43]) };
             g.try_op(AOp::Imp(n, k));
         }
         else if c < 58 && !instance_like.is_empty() {
